@@ -3,6 +3,7 @@
 package main
 
 import (
+	"encoding/json"
 	"fmt"
 	"strings"
 
@@ -169,8 +170,33 @@ func (g *Gen) forType(ty string) *J {
 		ver := lib.Pick(r, []*J{jStr("0x3"), jStr("0x3"), jStr("0x3"), jStr("0x100000000000000000000000000000003"),
 			jStr("0x100000000000000000000000000000003"), jStr("0x03"), jStr("0x1"), jStr("0x4"), jStr("0x2"),
 			jStr("0x100000000000000000000000000000004"), jStr("0x10000000000000000000000000000003"), nil, jNull(), raw("3"), jStr("3")})
+		mp := lib.Pick(r, []*J{jStr("0x0"), jStr("0x1"), jStr("0xffffffffffffffffffffffffffffffff"), jStr("0xffffffffffffffffffffffffffffffff"),
+			jStr("0x100000000000000000000000000000000"), jStr("0x80000000000000000000000000000000"), jStr("0x10000000000000000"),
+			jStr("0x" + hexDigits(r, r.Range(1, 34))), jStr("0x7" + strings.Repeat("f", 62)), nil, jNull(), raw("5"), jStr("0x"), jStr("12")})
+		if r.Chance(1, 2) { // an acceptable struct, at the boundaries
+			ma = jStr(lib.Pick(r, []string{"0x0", "0xffffffffffffffff", "0x8000000000000000", "0X1f", "0x00ff"}))
+			mp = jStr(lib.Pick(r, []string{"0x0", "0xffffffffffffffffffffffffffffffff", "0x80000000000000000000000000000000", "0x10000000000000000"}))
+			ver = jStr(lib.Pick(r, []string{"0x3", "0x100000000000000000000000000000003", "0x03"}))
+			if r.Chance(1, 6) { // exactly one field just beyond its limit
+				switch r.Intn(3) {
+				case 0:
+					ma = jStr("0x10000000000000000")
+				case 1:
+					mp = jStr("0x100000000000000000000000000000000")
+				default:
+					ver = jStr(lib.Pick(r, []string{"0x2", "0x4", "0x100000000000000000000000000000002", "0x200000000000000000000000000000003"}))
+				}
+			}
+		}
 		out := &J{K: '{', O: []KV{}}
 		kMa, kVer := "max_amount", "version"
+		if mp != nil {
+			k := "max_price_per_unit"
+			if r.Chance(1, 20) {
+				k = lib.Pick(r, []string{"MAX_PRICE_PER_UNIT", "Max_price_per_unit", "max_price"})
+			}
+			out.O = append(out.O, KV{k, mp})
+		}
 		if r.Chance(1, 15) {
 			kMa = lib.Pick(r, []string{"MAX_AMOUNT", "Max_Amount", "maxamount"})
 		}
@@ -591,4 +617,79 @@ func describe(in []byte) string {
 		return fmt.Sprintf("%q…(%d bytes)", in[:200], len(in))
 	}
 	return fmt.Sprintf("%q", in)
+}
+
+// bindingExhaustive: for some methods of the fixed world, every positional call of length 0..n+1 and
+// every named call in which each argument is independently absent / acceptable / null / ill-typed,
+// with and without an unknown name; as request and as notification.
+func bindingExhaustive(spec WorldSpec) [][]byte {
+	okVal := map[string]string{"any": `{"k":[1,"x"]}`, "raw": `[1.50,{"b":1,"a":2}]`, "int": `7`, "str": `"s"`, "bool": `true`, "ptrInt": `-3`,
+		"ints": `[1,2]`, "vstruct": `{"A":2}`, "bounds": `{"max_amount":"0x1","max_price_per_unit":"0x2","version":"0x3"}`}
+	badVal := map[string]string{"any": `1e999`, "raw": `[[`, "int": `"7"`, "str": `5`, "bool": `"true"`, "ptrInt": `1.5`,
+		"ints": `[1,"2"]`, "vstruct": `{"A":0}`, "bounds": `{"max_amount":"0x10000000000000000","max_price_per_unit":"0x2","version":"0x3"}`}
+	var out [][]byte
+	for _, name := range []string{"opt3", "sub", "allopt", "list", "bnd", "vs", "echo", "nilres"} {
+		var ms *MethodSpec
+		for i := range spec.Methods {
+			if spec.Methods[i].Name == name {
+				ms = &spec.Methods[i]
+			}
+		}
+		if ms == nil {
+			continue
+		}
+		n := len(ms.Params)
+		emit := func(params string) {
+			out = append(out, []byte(`{"jsonrpc":"2.0","method":"`+name+`","params":`+params+`,"id":1}`),
+				[]byte(`{"jsonrpc":"2.0","method":"`+name+`","params":`+params+`}`))
+		}
+		choices := func(i int) []string {
+			ty := ms.Params[min(i, n-1)].Ty
+			c := []string{okVal[ty], "null", badVal[ty]}
+			if ty == "raw" {
+				c[2] = `"any value is fine"`
+			}
+			return c
+		}
+		// positional
+		var rec func(k int, acc []string)
+		rec = func(k int, acc []string) {
+			emit("[" + strings.Join(acc, ",") + "]")
+			if k > n {
+				return
+			}
+			for _, c := range choices(k) {
+				rec(k+1, append(append([]string(nil), acc...), c))
+			}
+		}
+		if n > 0 {
+			rec(0, nil)
+		} else {
+			emit("[]")
+			emit("[1]")
+		}
+		// named
+		total := 1
+		for i := 0; i < n; i++ {
+			total *= 4
+		}
+		for code := 0; code < total; code++ {
+			for extra := 0; extra < 2; extra++ {
+				var parts []string
+				c := code
+				for i := 0; i < n; i++ {
+					if sel := c % 4; sel > 0 {
+						b, _ := json.Marshal(ms.Params[i].Name)
+						parts = append(parts, string(b)+":"+choices(i)[sel-1])
+					}
+					c /= 4
+				}
+				if extra == 1 {
+					parts = append(parts, `"no_such_name":1`)
+				}
+				emit("{" + strings.Join(parts, ",") + "}")
+			}
+		}
+	}
+	return out
 }
